@@ -76,6 +76,8 @@ def composites():
         D.make('BufEnable', 'be0', a, D.wire('en'), D.wire('x0', 4))
         D.make('Latch', 'l0', a, D.wire('lq', 4), D.wire('le'))
         D.make('Comparator', 'c0', a, b, D.wire('gt'), D.wire('eq'), D.wire('lt'))
+        D.make('Constant', 'kneg', -1, D.wire('kn', 8))         # a negative constant must come out as a legal literal
+        D.make('Constant', 'kbig', 300, D.wire('kb', 8))
         D.make('Comparator', 'c1', D.wire('a6', 6), D.wire('b6', 6), D.wire('gt6'), D.wire('eq6'), D.wire('lt6'))
         return None
 
